@@ -978,8 +978,9 @@ func compareLogicXEQ(left r.Element, right r.Element) (bool, error) {
 			if len(vla) != len(vra) {
 				return false, nil
 			}
-			// cmp each item
-			for idx := range vla {
+			// cmp each item - in the dictionary's key order, so that which entry decides
+			// (the first unequal one, or the first one that cannot be compared) is reproducible
+			for _, idx := range vl.OrderedKeys() {
 				// ensure the key exists on vr
 				vrr, ok := vra[idx]
 				if !ok {
